@@ -294,29 +294,34 @@ def main(mod, argv):
         if rc != 0:
             driver_ok = False
             broken.append({"what": "model/driver build", "detail": out[-3000:]})
-    checker_cmd = "cd lean && lake build %s" % mod.MODULE
+    modules = [mod.MODULE] if isinstance(mod.MODULE, str) else list(mod.MODULE)
+    modules = [m for m in modules if os.path.exists(os.path.join(LEAN_DIR, *m.split(".")) + ".lean")]
+    checker_cmd = "cd lean && lake build %s" % " ".join(modules)
     names, n_examples, axioms = [], 0, {}
-    rc, out = lake_build([mod.MODULE])
+    rc, out = lake_build(modules)
     proofs_ok = rc == 0
     if rc != 0:
         m = re.findall(r"error: ([^\n]*)", out)
-        broken.append({"what": "theorem build %s" % mod.MODULE, "detail": out[-3000:],
+        broken.append({"what": "theorem build %s" % " ".join(modules), "detail": out[-3000:],
                        "first_errors": m[:5]})
-    names = theorem_names(mod.MODULE)
-    n_examples = count_examples(mod.MODULE)
+    for mm in modules:
+        names += theorem_names(mm)
+        n_examples += count_examples(mm)
     if proofs_ok:
-        ok, axioms, raw = axiom_audit(mod.MODULE, names)
-        if not ok:
-            proofs_ok = False
-            broken.append({"what": "axiom audit", "detail": raw[-2000:]})
+        for mm in modules:
+            ok, ax, raw = axiom_audit(mm, theorem_names(mm))
+            axioms.update(ax)
+            if not ok:
+                proofs_ok = False
+                broken.append({"what": "axiom audit %s" % mm, "detail": raw[-2000:]})
         hits = forbidden_scan()
         if hits:
             proofs_ok = False
             broken.append({"what": "forbidden constructs", "detail": hits[:20]})
         if tier == "thorough" and proofs_ok:
-            proc = subprocess.run(["lake", "env", "leanchecker", mod.MODULE], cwd=LEAN_DIR,
+            proc = subprocess.run(["lake", "env", "leanchecker"] + modules, cwd=LEAN_DIR,
                                   stdout=subprocess.PIPE, stderr=subprocess.STDOUT)
-            checker_cmd += " && lake env leanchecker %s" % mod.MODULE
+            checker_cmd += " && lake env leanchecker %s" % " ".join(modules)
             if proc.returncode != 0:
                 proofs_ok = False
                 broken.append({"what": "leanchecker", "detail": proc.stdout.decode(errors="replace")[-2000:]})
